@@ -29,6 +29,9 @@
 (*                      not extend to a model of the CNF                   *)
 (*   refused_encodable  the call raised for a constraint the layer is      *)
 (*                      documented to encode                               *)
+(*   refusal_consistent a constraint record that some manager of this      *)
+(*                      process accepted before is refused now (the same   *)
+(*                      constraint must be treated the same every time)    *)
 (*   sat_iff            solve() # (allowed # {})                           *)
 (*   model_ok           satisfiable but the exposed model (value()) is not *)
 (*                      0/1, inconsistent for -v, or violates a constraint *)
@@ -72,7 +75,8 @@ PostClauses(e, mg) ==
       obs == ObsAllowed(e)
   IN [sound |-> obs \subseteq expected,
       complete |-> expected \subseteq obs,
-      refused_encodable |-> e.refused = 1 => Refusable(e.c)]
+      refused_encodable |-> e.refused = 1 => Refusable(e.c),
+      refusal_consistent |-> e.refused = 1 => ~\E i \in DOMAIN mgrs : \E j \in DOMAIN mgrs[i].posted : mgrs[i].posted[j] = e.c]
 
 SolveClauses(e, mg) ==
   LET good == e.sat = 1 /\ Len(e.model) = Len(T.vars) /\ IsBits(e.model) IN
@@ -113,7 +117,8 @@ Step == /\ l <= Len(T.events)
                                 \cup (IF (e.refused = 1) = P.refused THEN {} ELSE {<<l, "refusal">>})
                                 \cup (IF e.store = P.store /\ (P.root >= 0 => e.root = P.root) THEN {} ELSE {<<l, "store">>})
                      ELSE \* property level only: allowed follows the definition, nothing else is replayed
-                          /\ mgrs' = [mgrs EXCEPT ![e.m].allowed = IF e.refused = 1 THEN @ ELSE @ \cap SatSet(e.c)]
+                          /\ mgrs' = [mgrs EXCEPT ![e.m].allowed = IF e.refused = 1 THEN @ ELSE @ \cap SatSet(e.c),
+                                                   ![e.m].posted = IF e.refused = 1 THEN @ ELSE Append(@, e.c)]
                           /\ UNCHANGED <<store, drift>>
                   /\ lastm' = e.m /\ lastc' = e.c /\ lastref' = (e.refused = 1)
                   /\ UNCHANGED <<root, lastq, lastdec, nb>>
